@@ -267,6 +267,8 @@ class Real:
             opts[Vertex] = vdef(fmt="T{a0}")
         elif o == 3:
             opts[pool.X] = {"v1side": "o", "v2side": "o"}
+        elif o == 4:
+            opts[pool.SV] = vdef("class", "T{a0}")
         return opts
 
     def parse_puml(self, text):
@@ -516,7 +518,9 @@ class Real:
             us = [self.pv(t) for t in self.opt(opts, "u").split(",") if t]
             attrs = self.pattrs(self.opt(opts, "a"), len(self.V))
             self.keep(ls, us, attrs)
-            v = cls(links=ls, universes=(us if self.keep_mode else iter(us)), attributes=attrs)
+            uid = self.opt(opts, "x")
+            v = cls(links=ls, universes=(us if self.keep_mode else iter(us)), attributes=attrs,
+                    uid=(int(uid) if uid else None))
             return "ok V%d" % self.reg_v(v)
         if op == "universe":
             opts = toks[1:]
